@@ -786,6 +786,10 @@ func (m *StateMachine) sendInitialActionSet(ctx context.Context) (
 		rlc.Reset(ctx, initRE.H, initRE.R)
 		rlc.HeightCommitted = hc
 
+		// The header may have been committed in a different round than the one we entered,
+		// and the driver's finalization response names the round of the request.
+		rlc.R = rer.CH.Proof.Round
+
 		// This is a replay, so we can just tell the driver to finalize it.
 		finReq := tmdriver.FinalizeBlockRequest{
 			Header: rer.CH.Header,
@@ -1900,6 +1904,10 @@ func (m *StateMachine) advance(
 	} else {
 		// The state machine is still catching up with the mirror.
 		rlc.MarkCatchingUp()
+
+		// As in sendInitialActionSet: the replayed header's round is the commit's,
+		// which is the round the driver's finalization response will name.
+		rlc.R = rer.CH.Proof.Round
 
 		// In replay, we just directly make a finalize block request.
 		finReq := tmdriver.FinalizeBlockRequest{
